@@ -8,7 +8,7 @@
 (* followed by a dump of all variables, which TLC compares with the ideal  *)
 (* store (pure values: aliasing is impossible in the specification).       *)
 (***************************************************************************)
-EXTENDS Bloc, Json, IOUtils
+EXTENDS Bloc, Json, IOUtils, SequencesExt
 Env(n, d) == IF n \in DOMAIN IOEnv THEN IOEnv[n] ELSE d
 H == atoi(Env("GEN_DEPTH", "2"))
 
@@ -59,12 +59,43 @@ Prelude(ty) == << FuncFor(ty), Let("A", Init0(ty)), Let("B", Fresh(ty)), Let("T"
 RECURSIVE Seqs(_, _)
 Seqs(n, k) == IF n = 0 THEN {<<>>} ELSE {Append(h, c) : h \in Seqs(n - 1, k), c \in 1..k}
 
+(* ---- relation-only family: evaluating an expression changes no variable, twice gives the same ---- *)
+\* No expected values are needed: every variable, table element and tuple item of every type is used as an operand
+\* of every operator / converter (as left and as right operand, next to temporaries), the expression is evaluated
+\* twice (the two results must be equal) and the dump afterwards must equal the dump before.
+MPrelude == "VI = 1; VD = 2.5; VS = \"s\"; VB = true; VT = tab(2, 1); VTS = tab(2, \"a\"); VU = tup(1, \"a\", 2.5); VR = raw(\"ab\"); VZ = 2 + 3 * ii;\n"
+            \o "VTT = tab(2, tab(1, 1)); VTU = tab(2, tup(1, \"a\")); VTD = tab(2, 1.5); VNI = int(); VNS = str(); VNB = bool(); VN = null; if false then VUN = true; VUS = \"u\"; end if;\n"
+            \o "function FO(X) return undefined is begin return X; end;\nfunction FT(X) return undefined is begin Y = X; return typeof(Y); end;"
+Places == << "VI", "VD", "VS", "VB", "VR", "VZ", "VNI", "VNS", "VNB", "VN", "VUN", "VUS", "VT", "VU", "VT.at(0)", "VTS.at(1)", "VTD.at(0)", "VU@1", "VU@2", "VU@3",
+             "VTT.at(0).at(0)", "VTT.at(1)", "VTU.at(1)@1", "VTU.at(1)@2", "VTU.at(0)", "ii", "null", "\"lit\"", "7", "2.5" >>
+Temps == << "(VD + VD)", "(VI * VI)", "num(2)", "(VS + VS)", "FO(VI)", "FO(VD)", "(VZ + VZ)", "int()", "bool()" >>
+MOps == << "+", "-", "*", "/", "%", "**", "&", "|", "^", "<<", ">>", "==", "!=", "<", "<=", ">", ">=", "and", "or", "xor" >>
+MUn(x) == << "isnull(" \o x \o ")", "typeof(" \o x \o ")", "str(" \o x \o ")", "not " \o x, "-" \o x, "(" \o x \o ").count()", "FO(" \o x \o ")", "FT(" \o x \o ")",
+             "tup(" \o x \o ", 1)", "tab(1, " \o x \o ")", "num(" \o x \o ")", "int(" \o x \o ")", "bool(" \o x \o ")", "raw(" \o x \o ")", "abs(" \o x \o ")",
+             "(" \o x \o ").concat(" \o x \o ")" >>
+MExprs == {Places[l] \o " " \o MOps[o] \o " " \o Places[r] : l \in DOMAIN Places, o \in DOMAIN MOps, r \in DOMAIN Places}
+          \cup {Temps[l] \o " " \o MOps[o] \o " " \o Places[r] : l \in DOMAIN Temps, o \in DOMAIN MOps, r \in DOMAIN Places}
+          \cup {Places[l] \o " " \o MOps[o] \o " " \o Temps[r] : l \in DOMAIN Places, o \in DOMAIN MOps, r \in DOMAIN Temps}
+          \cup UNION {{MUn(Places[l])[j] : j \in 1..15} : l \in DOMAIN Places}
+\* (x).concat(x) changes its receiver by definition: only for receivers that are not places
+          \cup {MUn(Temps[l])[16] : l \in DOMAIN Temps} \cup {"null.concat(\"a\")", "\"lit\".concat(\"a\")", "str().concat(\"a\")", "tab(1, 1).concat(2)", "raw(1, 65).concat(66)"}
+Flat(ss) == LET F[i \in 0..Len(ss)] == IF i = 0 THEN <<>> ELSE F[i - 1] \o ss[i] IN F[Len(ss)]
+MSeq == SetToSeq(MExprs)
+MChunk == 40
+MScenario(c) ==
+  LET lo == c * MChunk + 1  hi == IF lo + MChunk - 1 > Len(MSeq) THEN Len(MSeq) ELSE lo + MChunk - 1 IN
+  [prop |-> "C05", key |-> "M",
+   steps |-> << [op |-> "exec", ctx |-> 0, free |-> TRUE, text |-> MPrelude], [op |-> "dump", ctx |-> 0, free |-> TRUE] >>
+             \o Flat([j \in 1..(hi - lo + 1) |-> << [op |-> "expr", ctx |-> 0, twice |-> TRUE, text |-> MSeq[lo + j - 1]],
+                                                    [op |-> "dump", ctx |-> 0, unchanged_since |-> 2] >>])]
 VARIABLE p
-Init == p \in {[ty |-> ty, h |-> h] : ty \in Types, h \in {<<>>}} \cup
+Init == p \in {[ty |-> "M", h |-> <<c>>] : c \in 0..((Len(MSeq) - 1) \div MChunk)} \cup
+              {[ty |-> ty, h |-> h] : ty \in Types, h \in {<<>>}} \cup
               UNION {{[ty |-> ty, h |-> h] : h \in UNION {Seqs(n, Len(Pool(ty))) : n \in 1..H}} : ty \in Types}
 Next == UNCHANGED p
 ExecStep(prog) == [op |-> "exec", ctx |-> 0, ast |-> prog, text |-> Render(prog)]
 Scenario(q) ==
+  IF q.ty = "M" THEN MScenario(q.h[1]) ELSE
   LET pool == Pool(q.ty)
       Steps[j \in 0..Len(q.h)] ==
         IF j = 0 THEN << ExecStep(Prelude(q.ty)), [op |-> "dump", ctx |-> 0] >>
